@@ -106,6 +106,13 @@ def judge(ck, sc, o, origin, model=None):
         res.append(dict(cn, judged=True, want=want))
         if cn["got"] == want:
             continue
+        obs_err = (cn.get("obs") or {}).get("err", "") if isinstance(cn.get("obs"), dict) else ""
+        if "timeout" in obs_err or "deadline" in obs_err:
+            # the probe connection itself timed out (loaded machine): this observation proves nothing
+            ck.extra["inconclusive_probes"] = ck.extra.get("inconclusive_probes", 0) + 1
+            res[-1]["judged"] = False
+            judged -= 1
+            continue
         when = "race" if raced else "sequential"
         variant = sc["kind"][cn["h"]]
         if want == "dropped":
